@@ -19,8 +19,8 @@ def mk(cases, refsrv=0, refcli=0, tls=0, start=1, wf=0, resp=R_NOCERT, dead=-1, 
     """assemble a case; `wait`: None = decide here (marker appended whenever the stderr reader exists)"""
     if wait is None:
         if refsrv and start:
-            stderr = stderr + b"\n" + SENT
-            wait = SENT
+            stderr = stderr + b"\n" + SENT + b"\n"      # the marker is a complete line: nothing hangs if an
+            wait = SENT                                   # unterminated last line were dropped
         else:
             wait = b""
     return ["c11.batch", [refsrv, refcli, tls], start, wf, list(resp), dead, bytes(stderr), chunk, bytes(wait),
